@@ -346,6 +346,51 @@ def check_properties(prog: Program, L: Ledger) -> None:
             L.check(assigned, "P", f"{d.name}.__init__:{p}", init.where, f"constructor parameter `{p}` of {d.name} is never stored through its property", f"{d.name}(..., {p}=x) runs at the default {p}", p)
 
 
+def check_particle_number(prog: Program, L: Ledger) -> None:
+    """N: every write of `number_of_exchange_particles` is an initialisation from a constant / constructor parameter, a
+    property setter forwarding a value to the context, or the accept-path advance by `self.particle_delta`."""
+    from ..dataflow import Inliner, param_names
+
+    slot = "number_of_exchange_particles"
+    n = 0
+    advance = 0
+    for fi in prog.iter_functions():
+        inl = None
+        for st in walk_no_nested(fi.node):
+            tg = st.targets if isinstance(st, ast.Assign) else ([st.target] if isinstance(st, (ast.AugAssign, ast.AnnAssign)) else [])
+            for t in tg:
+                if not (isinstance(t, ast.Attribute) and t.attr == slot):
+                    continue
+                n += 1
+                where = f"{fi.module.relpath}:{st.lineno}"
+                recv = norm(t.value)
+                cons = f"{fi.qualname}:{slot}"
+                if isinstance(st, ast.AugAssign):
+                    ok = isinstance(st.op, ast.Add) and norm(st.value) == f"{recv}.particle_delta"
+                    advance += ok
+                    L.check(ok, "N", cons, where, f"`{norm(st)}` advances the particle number by something other than the trial's particle_delta",
+                            "after an accepted exchange of a multi-atom species the N entering V/(Λ³(N+1)) and Λ³N/V is not the number of particles", norm(st))
+                    continue
+                val = st.value
+                if val is None:
+                    continue
+                inl = inl or Inliner(fi.node)
+                v = inl.inline(val)
+                vt = norm(v)
+                if fi.name == "__init__" and (isinstance(v, ast.Constant) or (isinstance(v, ast.Name) and v.id in param_names(fi.node))):
+                    L.ok("N", cons, where)
+                elif fi.kind == "setter" and isinstance(v, ast.Name) and v.id in param_names(fi.node):
+                    L.ok("N", cons, where)
+                elif vt in (f"{recv}.{slot} + {recv}.particle_delta", f"{recv}.particle_delta + {recv}.{slot}"):
+                    advance += 1
+                    L.ok("N", cons, where)
+                else:
+                    L.violation("N", cons, where, f"`{norm(st)[:100]}` sets the particle number to `{vt[:80]}`: not an initialisation and not N + particle_delta",
+                                "the N entering the insertion/deletion acceptance ratio is not the number of particles", norm(st)[:120])
+    L.floor("writes of number_of_exchange_particles", n, 3)
+    L.check(advance >= 1, "N", "ExchangeContext.save_state:advance", "src/quansino/mc/contexts.py", "no accept path advances the particle number by particle_delta", "N never changes although particles are exchanged", "advance")
+
+
 def run(prog: Program, L: Ledger) -> None:
     L.explanation = (
         "C02 decided by value-numbering each criterion's evaluate() (straight-line code; the grand-canonical factorial loops are "
@@ -362,6 +407,7 @@ def run(prog: Program, L: Ledger) -> None:
     L.rule("O", "every math.exp argument reachable in evaluate() is bounded above by 709.78 (clamped) — arbitrarily favourable trials never raise")
     L.rule("D", "the decision is `u < A`, strict, with u the single context.rng.random() draw")
     L.rule("P", "criteria read parameters from the context at evaluation time; driver property getter/setter pairs use the same context slot; constructor parameters go through them")
+    L.rule("N", "the particle number N read by the insertion/deletion rule is only ever advanced by the trial's particle_delta (who-may-write on number_of_exchange_particles)")
     L.assume("numpy broadcasting: matrix ± scalar is element-wise; math.exp raises OverflowError above 709.78 while np.exp saturates")
 
     crits = criteria_classes(prog)
@@ -372,3 +418,4 @@ def run(prog: Program, L: Ledger) -> None:
         analyse(prog, L, ci, f, deltas)
     # default criteria used by drivers are covered
     check_properties(prog, L)
+    check_particle_number(prog, L)
